@@ -212,6 +212,7 @@ def main():
         tier = sys.argv[sys.argv.index("--tier") + 1]
     seed = int(os.environ.get("VERIF_SEED", "0") or 0)
     cfg = CHECKS[pid]
+    GOENV["VERIF_TIER"] = tier  # the native replay must take the same tier-dependent branches as the engine run
     t0 = time.time()
     build_engine()
     tmp = tempfile.mkdtemp(prefix="verif.%s." % pid)
